@@ -427,7 +427,6 @@ package redis
 //@   invariant {C17} opt.MatchPattern != nil && isGlob(opt.MatchPattern)
 //@   decreases len(args.msgs) - args.index + (err == nil ? 1 : 0)
 
-
 // ---------------------------------------------------------------- system_commander.go / server_auth.go (the handlers the server installs on itself)
 
 //@ func (*Server).Ping
